@@ -67,22 +67,23 @@ class Interp:
             if stars == 0:
                 items.append(("el", j))
             elif stars == 1:
-                items.append((("el", j), j) if j != bad else (1, 2, 3, 4, 5))
+                items.append((("el", j), j))
             else:
-                items.append({"x": ("el", j), "y": j} if j != bad else {"nope": j})
+                items.append({"x": ("el", j), "y": j})
         r["items"] = items
         fn = self.w.worker(r["idx"], fname)
-        if stars == 0 and bad >= 0:
-            w = self.w
+        if bad >= 0:
             inner = fn
 
-            def fn0(x):
-                if x == ("el", bad):
-                    raise ValueError("call-site fault")
-                return inner(x)
-            fn0.__name__ = fname
-            fn0._is_coroutine = __import__("asyncio").coroutines._is_coroutine
-            fn = fn0
+            def fnb(*a, **k):
+                # the call for element `bad` raises synchronously (as wrong arguments would)
+                if (stars == 0 and a == (("el", bad),)) or (stars == 1 and a == (("el", bad), bad)) \
+                        or (stars == 2 and k == {"x": ("el", bad), "y": bad}):
+                    raise TypeError("call-site fault for element %d" % bad)
+                return inner(*a, **k)
+            fnb.__name__ = fname
+            fnb._is_coroutine = __import__("asyncio").coroutines._is_coroutine
+            fn = fnb
         gen = self.w.counting_gen(r, items)
         meth = (self.pool.map, self.pool.starmap, self.pool.doublestarmap)[stars]
         try:
